@@ -24,6 +24,11 @@ def cases(tier):
         "10 PRINT \"HI\"",
         "10 A$=\"A\":B$=\"B\":C$=\"C\":D$=\"D\":E$=\"E\":ZZ$=\"Z\":M$(1)=\"Q\"",
         "10 HLINE(1,2)-(3,4),PSET:PLAY \"CDE\":A=POINT(1,2)",
+        # statements whose omitted operand is filled in by the tool: an object shared between statements or calls
+        # (a default-colour node, a default CLS colour, a prologue line) would carry state from one to the next
+        "10 HCIRCLE(100,100),50,,INT(A)/2", "10 HCIRCLE(100,100),50", "10 HCIRCLE(10,10),5,,1,INT(A),BUTTON(0)",
+        "10 HCIRCLE(1,2),3,,INT(B)\n20 HCIRCLE(1,2),3", "10 CLS INT(A)\n20 CLS", "10 CLS", "10 HSCREEN:HCLS:HCOLOR INT(A)",
+        "10 HLINE-(INT(A),2),PSET\n20 HLINE-(3,4),PSET", "10 PRINT@INT(A),STR$(B)\n20 PRINT@1,\"X\"", "10 A=JOYSTK(0)\n20 B=JOYSTK(1)",
     ]
     progs = fixed + [G.Gen(r, max_depth=2).program(r.choice([2, 4, 6])) for _ in range(30 if quick else 200)]
     for t in progs:
